@@ -1123,6 +1123,8 @@ struct Sim<'a> {
     malformed: bool,
     et: usize,
     calls: u64,
+    old_reads: Vec<Message>,
+    read_dups_left: u32, // bounded: a re-delivered request may be forwarded and re-delivered again
 }
 
 fn role_name(s: StateRole) -> &'static str {
@@ -1438,10 +1440,27 @@ impl<'a> Sim<'a> {
             Coverage::bump(&mut self.cov.events, "dropped_isolated".into());
             return;
         }
+        let is_read = m.get_msg_type() == MessageType::MsgReadIndex;
+        if is_read {
+            // forwarded read requests are kept and re-delivered later as stale duplicates (A, B, A patterns)
+            if self.old_reads.len() >= 8 {
+                self.old_reads.remove(0);
+            }
+            self.old_reads.push(m.clone());
+        }
         if self.call(to - 1, Op::Step(m)) {
             let full = self.rng.chance(75);
             if full || self.rng.chance(50) {
                 self.housekeeping(to - 1, full);
+            }
+        }
+        if !self.old_reads.is_empty() && self.read_dups_left > 0 && self.rng.chance(if is_read { 35 } else { 4 }) {
+            self.read_dups_left -= 1;
+            let k = self.rng.below(self.old_reads.len() as u64) as usize;
+            let m2 = self.old_reads[k].clone();
+            let t2 = m2.to as usize;
+            if t2 >= 1 && t2 <= self.nodes.len() && !self.isolated[t2 - 1] && self.call(t2 - 1, Op::Step(m2)) && self.rng.chance(60) {
+                self.housekeeping(t2 - 1, true);
             }
         }
     }
@@ -2044,7 +2063,7 @@ fn cluster(seed: u64, malformed: bool, cov: &mut Coverage) -> Sim<'_> {
         let store = build_storage(&hs, &cs, snap, mine);
         nodes.push(SimNode { id, st: None, cfg, store, snap, lines: Arc::new(Mutex::new(vec![])), unreported: None, restarts: 0 });
     }
-    Sim { nodes, net: vec![], rng, cov, isolated: vec![false; total as usize], next_payload: 1, malformed, et, calls: 0 }
+    Sim { nodes, net: vec![], rng, cov, isolated: vec![false; total as usize], next_payload: 1, malformed, et, calls: 0, old_reads: vec![], read_dups_left: 150 }
 }
 
 /// `rn new` lines with damaged configurations / storages: `Config::validate`, the restore of the
@@ -2125,6 +2144,123 @@ fn config_stream(seed: u64, n: u64, cov: &mut Coverage, out: &mut dyn Write) -> 
     lines
 }
 
+/// directed stream for `Raft::hup`: a node restarted from a snapshot point plus a log whose first
+/// entries may be membership changes, with the commit / applied indexes at every position relative to
+/// them, is asked to campaign (explicitly, by MsgHup, by MsgTimeoutNow and by election timeouts); the
+/// scan for committed-but-unapplied membership changes and its bounds decide
+fn hup_stream(seed: u64, n: u64, cov: &mut Coverage, out: &mut dyn Write) -> u64 {
+    let mut rng = Rng::new(seed ^ 0x4855_5000);
+    let mut lines = 0;
+    for _ in 0..n {
+        let et = 5 + rng.below(4) as usize;
+        let id = 1 + rng.below(3);
+        let c0 = Config {
+            id,
+            election_tick: et,
+            heartbeat_tick: 1,
+            max_inflight_msgs: 4,
+            max_size_per_msg: [0, 10, u64::MAX][rng.below(3) as usize],
+            check_quorum: rng.chance(50),
+            pre_vote: rng.chance(50),
+            max_election_tick: et + (1usize << 40),
+            ..Default::default()
+        };
+        let mut cs = ConfState::default();
+        let mut voters: Vec<u64> = vec![1, 2, 3];
+        if rng.chance(15) {
+            voters.retain(|v| *v != id);
+        }
+        cs.set_voters(voters);
+        if rng.chance(20) {
+            cs.set_learners(vec![4]);
+        }
+        let s = rng.below(4);
+        let snap = if s > 0 { (s, 1) } else { (0, 0) };
+        let k = 1 + rng.below(5);
+        let mut ents = vec![];
+        for j in 0..k {
+            let mut e = Entry::default();
+            e.index = snap.0 + 1 + j;
+            e.term = 1;
+            if rng.chance(if j == 0 { 55 } else { 30 }) {
+                if rng.chance(50) {
+                    let mut cc = ConfChange::default();
+                    cc.set_change_type(if rng.chance(50) { ConfChangeType::AddLearnerNode } else { ConfChangeType::AddNode });
+                    cc.node_id = 4 + rng.below(2);
+                    e.set_entry_type(EntryType::EntryConfChange);
+                    e.data = cc.write_to_bytes().unwrap().into();
+                } else {
+                    let mut cc = ConfChangeV2::default();
+                    if rng.chance(70) {
+                        cc.mut_changes().push(single(ConfChangeType::AddNode, 4 + rng.below(2)));
+                    }
+                    e.set_entry_type(EntryType::EntryConfChangeV2);
+                    e.data = cc.write_to_bytes().unwrap().into();
+                }
+            } else {
+                e.data = vec![b'h', j as u8].into();
+            }
+            ents.push(e);
+        }
+        let mut hs = HardState::default();
+        hs.term = 1;
+        hs.commit = snap.0 + rng.below(k + 1);
+        let mut c = c0.clone();
+        c.applied = match rng.below(4) {
+            0 => snap.0,
+            1 => hs.commit,
+            2 => hs.commit.saturating_sub(1).max(snap.0),
+            _ => snap.0 + rng.below(hs.commit - snap.0 + 1),
+        };
+        let store = build_storage(&hs, &cs, snap, &ents);
+        let pick = c.min_election_tick().max(1);
+        let (st, tok, line) = new_node(&c, store, snap, Some(pick));
+        writeln!(out, "rn new {} {}", tok, line).unwrap();
+        lines += 1;
+        let Some(mut st) = st else { continue };
+        let mut ops: Vec<Op> = vec![];
+        match rng.below(4) {
+            0 => ops.push(Op::Campaign),
+            1 => {
+                let mut m = Message::default();
+                m.set_msg_type(MessageType::MsgTimeoutNow);
+                m.from = if id == 1 { 2 } else { 1 };
+                m.to = id;
+                m.term = 1;
+                ops.push(Op::Step(m));
+            }
+            2 => {
+                for _ in 0..(2 * et + 2) {
+                    ops.push(Op::Tick);
+                }
+            }
+            _ => {
+                let mut m = Message::default();
+                m.set_msg_type(MessageType::MsgHup);
+                ops.push(Op::RStep(m));
+            }
+        }
+        ops.push(Op::Campaign);
+        for op in ops {
+            let a = op.args();
+            let (tok, obs, alive) = st.exec(&op, Some(pick), false);
+            if a.is_empty() {
+                writeln!(out, "rn {} {} -> {}", op.name(), tok, obs).unwrap();
+            } else {
+                writeln!(out, "rn {} {} {} -> {}", op.name(), tok, a, obs).unwrap();
+            }
+            lines += 1;
+            Coverage::bump(&mut cov.ops, op.name().into());
+            let rk = obs.split(" | ").next().unwrap_or("").to_string();
+            Coverage::bump(&mut cov.results, format!("hup-stream {}:{}", op.name(), if rk.starts_with("ok") { "ok".to_string() } else { rk }));
+            if !alive {
+                break;
+            }
+        }
+    }
+    lines
+}
+
 /// `rvh raftnode --seed S [--offset O] --runs N --steps K [--malformed] [--coverage FILE]`
 pub fn generate(seed: u64, offset: u64, runs: u64, steps: u64, malformed: bool, coverage_file: &str, out: &mut dyn Write) -> u64 {
     let mut cov = Coverage::default();
@@ -2135,6 +2271,7 @@ pub fn generate(seed: u64, offset: u64, runs: u64, steps: u64, malformed: bool, 
         if malformed {
             lines += config_stream(run_seed, 12, &mut cov, out);
         }
+        lines += hup_stream(run_seed, 10, &mut cov, out);
         let all: Vec<Vec<String>> = {
             let mut sim = cluster(run_seed, malformed, &mut cov);
             for i in 0..sim.nodes.len() {
